@@ -79,6 +79,47 @@ type c14Case struct {
 	//   removed-refetched  removed once (as above), fetched again from the holding remotes, removed again: remote-tracking refs only
 	//   removed-repulled   removed once, pulled again (fetch + merge: it legitimately comes back), removed again
 	State string `json:"state,omitempty"`
+	// Names of the configured remotes (len == Remotes). Empty: origin, origin2, peer. The name cases use names that git
+	// accepts and that are not a single plain word: with '/', several levels, '.', '-', a name that is a prefix of
+	// another one (team, team/alice), names equal to the namespace words (bugs, identities).
+	Names   []string `json:"remote_names,omitempty"`
+	NameSet string   `json:"remote_name_set,omitempty"`
+}
+
+// remoteName is the name of the i-th configured remote.
+func (cs c14Case) remoteName(i int) string {
+	if i < len(cs.Names) {
+		return cs.Names[i]
+	}
+	return c14RemoteNames[i]
+}
+
+// c14NameClass says what is unusual about a remote name ("plain": nothing). Used in finding keys and counters.
+func c14NameClass(name string) string {
+	var cls []string
+	segs := strings.Split(name, "/")
+	switch {
+	case len(segs) == 2:
+		cls = append(cls, "slash")
+	case len(segs) > 2:
+		cls = append(cls, "multi-slash")
+	}
+	for _, sg := range segs {
+		if sg == "bugs" || sg == "identities" {
+			cls = append(cls, "ns-word")
+			break
+		}
+	}
+	if strings.Contains(name, ".") {
+		cls = append(cls, "dot")
+	}
+	if strings.ContainsAny(name, "-_") {
+		cls = append(cls, "dash")
+	}
+	if len(cls) == 0 {
+		return "plain"
+	}
+	return strings.Join(cls, "+")
 }
 
 const (
@@ -146,7 +187,23 @@ func (e *c14Env) seen(set, m string) {
 
 // finding records a refuting observation. Within one case only the findings of the
 // earliest failing stage are reported: what later stages see is a consequence.
-func (e *c14Env) finding(key, what string) {
+//
+// In a case with unusual remote names the key says so: a finding about a remote-tracking ref of a configured remote
+// (pass the ref) gets ":remote-name=<class of that remote's name>" (nothing for a plain name), every other finding
+// ":remote-names=unusual". The keys of the cases with the default names are unchanged.
+func (e *c14Env) finding(key, what string, aboutRef ...string) {
+	if len(e.cs.Names) > 0 {
+		suffix := ":remote-names=unusual"
+		if len(aboutRef) > 0 {
+			if remote, _, _, ok := e.remoteOfRef(aboutRef[0]); ok {
+				suffix = ""
+				if cls := c14NameClass(remote); cls != "plain" {
+					suffix = ":remote-name=" + cls
+				}
+			}
+		}
+		key += suffix
+	}
 	if parts := strings.Split(key, ":"); parts[0] == "remove" {
 		// the state the victim was in when this removal was asked for (nothing appended for an entity that exists locally
 		// and is removed for the first time: the keys of that class are unchanged)
@@ -281,19 +338,33 @@ func (e *c14Env) refClass(ref string) string {
 		}
 	}
 	if strings.HasPrefix(ref, "refs/remotes/") {
+		// refs/remotes/<remote>/<namespace>/<id> of a configured remote (whose name may hold any number of '/')
+		if _, ns, id, ok := e.remoteOfRef(ref); ok {
+			if ns == e.ns && id == e.victim {
+				return "victim-remote-tracking"
+			}
+			return "other-" + ns + "-remote-tracking"
+		}
 		parts := strings.SplitN(strings.TrimPrefix(ref, "refs/remotes/"), "/", 3)
 		if len(parts) == 3 && (parts[1] == "bugs" || parts[1] == "identities") {
-			if parts[1] == e.ns && parts[2] == e.victim {
-				for _, r := range e.remotes {
-					if r == parts[0] {
-						return "victim-remote-tracking"
-					}
-				}
-			}
 			return "other-" + parts[1] + "-remote-tracking"
 		}
 	}
 	return "host"
+}
+
+// remoteOfRef: ref is refs/remotes/<remote>/<bugs|identities>/<one path element> for a configured remote. With several
+// candidates (no name set of the case list has any) the longest remote name wins.
+func (e *c14Env) remoteOfRef(ref string) (remote, ns, id string, ok bool) {
+	for _, r := range e.remotes {
+		for _, n := range []string{"bugs", "identities"} {
+			p := "refs/remotes/" + r + "/" + n + "/"
+			if strings.HasPrefix(ref, p) && len(ref) > len(p) && !strings.Contains(ref[len(p):], "/") && len(r) > len(remote) {
+				remote, ns, id, ok = r, n, ref[len(p):], true
+			}
+		}
+	}
+	return
 }
 
 func storageOutsideCache(files []string) []string {
@@ -333,16 +404,19 @@ func (e *c14Env) frame(stage string, before, after c14Raw, expect c14Expect) {
 			}
 			if expectGone && strings.HasPrefix(cls, "victim-") {
 				if still {
-					e.finding(kp+"ref-left:"+cls, fmt.Sprintf("%s still lists %s after the removal of %s %s", reader.name, ref, e.cs.Kind, e.victim))
+					e.finding(kp+"ref-left:"+cls, fmt.Sprintf("%s still lists %s after the removal of %s %s", reader.name, ref, e.cs.Kind, e.victim), ref)
 				} else {
 					e.count("victim_refs_removed/"+cls, 1)
+					if remote, _, _, ok := e.remoteOfRef(ref); ok && len(e.cs.Names) > 0 {
+						e.count("victim_refs_removed_by_remote_name_class/"+e.cs.Kind+"/"+c14NameClass(remote), 1)
+					}
 				}
 				continue
 			}
 			if !still {
-				e.finding(kp+"other-ref-deleted:"+cls, fmt.Sprintf("%s: ref %s (%s) disappeared although only %s %s was removed", reader.name, ref, cls, e.cs.Kind, e.victim))
+				e.finding(kp+"other-ref-deleted:"+cls, fmt.Sprintf("%s: ref %s (%s) disappeared although only %s %s was removed", reader.name, ref, cls, e.cs.Kind, e.victim), ref)
 			} else if ah != h {
-				e.finding(kp+"other-ref-moved:"+cls, fmt.Sprintf("%s: ref %s (%s) moved %s -> %s although only %s %s was removed", reader.name, ref, cls, h, ah, e.cs.Kind, e.victim))
+				e.finding(kp+"other-ref-moved:"+cls, fmt.Sprintf("%s: ref %s (%s) moved %s -> %s although only %s %s was removed", reader.name, ref, cls, h, ah, e.cs.Kind, e.victim), ref)
 			} else {
 				e.count("other_refs_unchanged", 1)
 				e.seen("protected_ref_classes", cls)
@@ -350,7 +424,7 @@ func (e *c14Env) frame(stage string, before, after c14Raw, expect c14Expect) {
 		}
 		for ref := range reader.a {
 			if _, ok := reader.b[ref]; !ok {
-				e.finding(kp+"ref-added:"+e.refClass(ref), fmt.Sprintf("%s: ref %s appeared", reader.name, ref))
+				e.finding(kp+"ref-added:"+e.refClass(ref), fmt.Sprintf("%s: ref %s appeared", reader.name, ref), ref)
 			}
 		}
 	}
@@ -846,19 +920,27 @@ func (e *c14Env) build() error {
 	}
 	e.w.Replicas = []*world.Replica{e.T, e.R2}
 	var bares []*world.Replica
+	if len(cs.Names) > 0 && len(cs.Names) != cs.Remotes {
+		return fmt.Errorf("%d remote names for %d remotes", len(cs.Names), cs.Remotes)
+	}
 	for i := 0; i < cs.Remotes; i++ {
-		b, err := mk("remote-"+c14RemoteNames[i], true)
+		name, dirName := cs.remoteName(i), "remote-"+cs.remoteName(i)
+		if len(cs.Names) > 0 {
+			dirName = fmt.Sprintf("remote-%d", i) // the name may hold '/'
+			e.seen("unusual_remote_names", fmt.Sprintf("%s (%s)", name, c14NameClass(name)))
+		}
+		b, err := mk(dirName, true)
 		if err != nil {
 			return err
 		}
 		bares = append(bares, b)
-		e.remotes = append(e.remotes, c14RemoteNames[i])
+		e.remotes = append(e.remotes, name)
 		if cs.Holds&(1<<i) != 0 {
-			e.holds = append(e.holds, c14RemoteNames[i])
+			e.holds = append(e.holds, name)
 		}
 		for _, r := range []*world.Replica{e.T, e.R2} {
-			if err := r.Tested.AddRemote(c14RemoteNames[i], b.Tested.GetLocalRemote()); err != nil {
-				return err
+			if err := r.Tested.AddRemote(name, b.Tested.GetLocalRemote()); err != nil {
+				return fmt.Errorf("AddRemote(%q): %w", name, err)
 			}
 		}
 	}
@@ -1741,7 +1823,7 @@ func (e *c14Env) wipeEndState(stage string, raw c14Raw, r cliResult) bool {
 			}
 			clean = false
 			e.finding(fmt.Sprintf("wipe:%s:ref-left:%s:fetched-unmerged=%v", stage, cls, e.cs.Unmerged),
-				fmt.Sprintf("after `git-bug wipe` (exit %d) %s still lists %s; output: %s", r.Code, reader.name, ref, r.Out))
+				fmt.Sprintf("after `git-bug wipe` (exit %d) %s still lists %s; output: %s", r.Code, reader.name, ref, r.Out), ref)
 		}
 	}
 	for _, line := range raw.Config {
@@ -1787,6 +1869,9 @@ func (e *c14Env) refClassWipe(ref string) string {
 	case strings.HasPrefix(ref, "refs/identities/"):
 		return "refs/identities"
 	case strings.HasPrefix(ref, "refs/remotes/"):
+		if _, ns, _, ok := e.remoteOfRef(ref); ok {
+			return "refs/remotes/*/" + ns
+		}
 		parts := strings.SplitN(strings.TrimPrefix(ref, "refs/remotes/"), "/", 3)
 		if len(parts) == 3 && (parts[1] == "bugs" || parts[1] == "identities") {
 			return "refs/remotes/*/" + parts[1]
@@ -1922,6 +2007,9 @@ func c14Run(cs c14Case) c14Result {
 	}
 	res.Shape = fmt.Sprintf("%s/%s/point%d/remotes%d/holding%d/sharedK%d/cross%d/prefix=%s/user=%v/bridge=%v/unmerged=%v/precache=%v/state=%s",
 		cs.Kind, cs.Api, cs.Point, cs.Remotes, holdCount, maxK, cs.CrossK, cs.Prefix, cs.UserSet, cs.Bridge, cs.Unmerged, cs.PreCache, map[bool]string{true: "local", false: cs.State}[cs.State == ""])
+	if cs.NameSet != "" {
+		res.Shape += "/remote-names=" + cs.NameSet
+	}
 	if err := e.build(); err != nil {
 		res.HarnessError = "build: " + err.Error()
 		return finish()
@@ -2027,7 +2115,81 @@ func c14Cases(r *mon.Run) []c14Case {
 		}
 		out = append(out, cs)
 	}
-	return append(out, c14StateCases(r, len(out))...)
+	out = append(out, c14StateCases(r, len(out))...)
+	return append(out, c14NameCases(r, len(out))...)
+}
+
+// c14NameSets: remote names that git accepts (`git remote add` of git 2.39 takes every one of them, and every set as a
+// whole) and that are not one plain word. No set holds two names a, b with b starting with a+"/bugs" or a+"/identities":
+// git-bug's own layout refs/remotes/<remote>/<namespace>/<id> is ambiguous for such a pair.
+var c14NameSets = []struct {
+	label string
+	names []string
+}{
+	{"slash", []string{"team/alice", "origin", "team/alice2"}},                // one '/', and a name that is a string prefix of another
+	{"nested-prefix", []string{"team", "team/alice", "team/alice/laptop"}},    // every name is a path prefix of the next
+	{"levels", []string{"a/b/c", "a/b", "x/y/z/w"}},                           // several levels
+	{"ns-words", []string{"bugs", "identities", "origin"}},                    // the namespace words themselves
+	{"ns-words-nested", []string{"bugs/identities", "identities", "my/bugs"}}, // namespace words as path elements
+	{"dot-dash", []string{"my.remote", "up-stream", "v1.2_rc-3"}},
+	{"dot-slash", []string{"a.b/c-d", "a.b", "a.b/c-d.e"}},
+}
+
+// c14NameCases: the removals of the lists above in repositories whose remotes have unusual names — bugs and identities,
+// every API, victims in every state. Template j%11 meets name set j%7 (coprime): thorough sees every pair 3 times.
+// (Appended to the list: the cases above are unchanged.)
+func c14NameCases(r *mon.Run, start int) []c14Case {
+	type tpl struct{ api, kind, state string }
+	cycle := []tpl{
+		{"cache", "bug", ""}, {"entity", "bug", ""}, {"cli-rm", "bug", ""}, {"cache", "identity", ""},
+		{"entity", "identity", ""}, {"cli-wipe", "bug", ""}, {"entity", "bug", c14FetchedUnmerged},
+		{"entity", "identity", c14RemovedRefetched}, {"cache", "bug", c14RemovedRepulled},
+		{"cli-wipe", "identity", ""}, {"cli-rm", "bug", c14RemovedRepulled},
+	}
+	n := r.Pick(4*len(cycle), 3*len(c14NameSets)*len(cycle))
+	var out []c14Case
+	for j := 0; j < n; j++ {
+		i := start + j
+		rng := mon.Rng(r.Seed, "c14-name-spec", j)
+		t := cycle[j%len(cycle)]
+		set := c14NameSets[j%len(c14NameSets)]
+		// every other case: all the names of the set, and all of them hold the victim (so that each class of name is met
+		// whatever the seed); otherwise 2 or 3 of the names, starting anywhere in the set, a non-empty subset holding.
+		// (The first remote is where a third replica publishes the fetched-unmerged entity of the wipe cases, the first
+		// holding one where the second replica joins.)
+		k := len(set.names)
+		rot := rng.Intn(len(set.names))
+		if j%2 != 0 {
+			k = 2 + rng.Intn(2)
+		}
+		var names []string
+		for x := 0; x < k; x++ {
+			names = append(names, set.names[(rot+x)%len(set.names)])
+		}
+		holds := 1<<k - 1
+		if j%2 != 0 {
+			holds = 1 + rng.Intn(1<<k-1)
+		}
+		cs := c14Case{
+			Name: fmt.Sprintf("case-%d", i), Seed: r.Seed, Idx: i,
+			Kind: t.kind, Api: t.api, State: t.state,
+			Remotes: k, Holds: holds, Names: names, NameSet: set.label,
+			Point:   (j / len(cycle)) % 3,
+			Others:  2 + rng.Intn(4),
+			Prefix:  []string{"full", "shortest", "human"}[rng.Intn(3)],
+			UserSet: rng.Intn(2) == 0 || t.api == "cli-rm" || t.api == "cli-wipe" || (t.api == "cache" && t.state == c14RemovedRepulled),
+		}
+		cs.SharedK = []int{1 + rng.Intn(3)}
+		switch t.api {
+		case "cli-wipe":
+			cs.Unmerged = j%2 == 0
+			cs.Bridge = rng.Intn(2) == 0
+		case "entity":
+			cs.PreCache = rng.Intn(4) == 0
+		}
+		out = append(out, cs)
+	}
+	return out
 }
 
 // c14StateCases: single-entity removals of a victim that is NOT simply "present locally, removed for the first time":
@@ -2112,6 +2274,7 @@ func runC14(tier, replay string) int {
 		c14WipeEmptyNamespace(r)
 	}
 	refLessJudged := map[string]int{}
+	namedRemoved := map[string]int{} // <kind>/<class of the remote's name> -> remote-tracking refs of a victim seen to disappear
 	outcomes := runBatchesRetry[c14Case, c14Result](r, "c14", cases, 3, 3*time.Minute)
 	for i, oc := range outcomes {
 		cs := cases[i]
@@ -2140,6 +2303,17 @@ func runC14(tier, replay string) int {
 			r.Count("cases_by_victim_state/"+cs.State+"/"+cs.Api+"/"+cs.Kind, 1)
 		}
 		refLessJudged[cs.Kind] += res.Counters["accepted_removals_of_an_entity_without_local_ref"]
+		if cs.NameSet != "" {
+			r.Count("cases_by_remote_name_set/"+cs.NameSet+"/"+cs.Api+"/"+cs.Kind, 1)
+			if cs.Api == "cli-wipe" && res.Counters["wipe_end_states_clean"] > 0 {
+				r.Count("clean_wipes_with_unusual_remote_names/"+cs.NameSet, 1)
+			}
+			for k, v := range res.Counters {
+				if strings.HasPrefix(k, "victim_refs_removed_by_remote_name_class/") {
+					namedRemoved[strings.TrimPrefix(k, "victim_refs_removed_by_remote_name_class/")] += v
+				}
+			}
+		}
 		r.Seen("history_points", fmt.Sprintf("%s/point%d", cs.Api, cs.Point))
 		for k, v := range res.Counters {
 			r.Count(k, v)
@@ -2160,17 +2334,30 @@ func runC14(tier, replay string) int {
 			fmt.Printf("replay of %s:\n%s\n", cs.Name, b)
 		}
 	}
-	min := r.Pick(50, 330)
+	min := r.Pick(80, 450)
 	if replay != "" {
 		min = 0
 	} else {
+		for _, kind := range []string{"bug", "identity"} {
+			for _, want := range []string{"slash", "multi-slash", "ns-word", "dot", "dash"} {
+				seen := 0
+				for k, v := range namedRemoved {
+					if strings.HasPrefix(k, kind+"/") && strings.Contains("+"+strings.TrimPrefix(k, kind+"/")+"+", "+"+want+"+") {
+						seen += v
+					}
+				}
+				if seen == 0 {
+					r.Inconclusive(fmt.Sprintf("no removal of a %s held by a remote whose name is of class %q was carried out and judged", kind, want))
+				}
+			}
+		}
 		for _, kind := range []string{"bug", "identity"} {
 			if refLessJudged[kind] == 0 {
 				r.Inconclusive("no removal of a " + kind + " without local ref (fetched and never merged, or removed and fetched again) was carried out and judged")
 			}
 		}
 	}
-	return r.Finish("before/after observation (ref table by gitraw and by git for-each-ref, .git/config key multiset, .git/git-bug listing, object set, cache answers, index hits) around a removal through bug.Remove / identity.Remove, RepoCache.{Bugs,Identities}().Remove(prefix), `git-bug bug rm` and `git-bug wipe`, in repositories with 0..3 remotes of which every subset holds the entity, 2..10 other entities with engineered shared id prefixes, at three points of an edit/push/pull history; followed by a second removal, reopen, rebuild from scratch and MergeAll without fetch. The removed entity is in one of four states: present locally (with 0..3 remote-tracking refs); fetched from 1..3 remotes and never merged (remote-tracking refs only); removed, fetched again, removed again (remote-tracking refs only); removed, pulled again, removed again. A removal of an entity without local ref that returns an error (the cache API and the CLI cannot resolve such an entity) is recorded as refused and only its frame is judged. A case is non-trivial when the removal was carried out and everything could be observed; distinct = distinct (kind, API, history point, #remotes, #holding remotes, longest engineered shared prefix, cross-namespace twin, prefix mode, user identity set, bridge config, fetched-unmerged entity, pre-built cache, state of the victim)",
+	return r.Finish("before/after observation (ref table by gitraw and by git for-each-ref, .git/config key multiset, .git/git-bug listing, object set, cache answers, index hits) around a removal through bug.Remove / identity.Remove, RepoCache.{Bugs,Identities}().Remove(prefix), `git-bug bug rm` and `git-bug wipe`, in repositories with 0..3 remotes of which every subset holds the entity, 2..10 other entities with engineered shared id prefixes, at three points of an edit/push/pull history; followed by a second removal, reopen, rebuild from scratch and MergeAll without fetch. The removed entity is in one of four states: present locally (with 0..3 remote-tracking refs); fetched from 1..3 remotes and never merged (remote-tracking refs only); removed, fetched again, removed again (remote-tracking refs only); removed, pulled again, removed again. The remotes are named origin, origin2, peer, or (name cases) by 2..3 names of a set of unusual names git accepts: with one or several '/', with '.', '-', '_', a name that is a string or path prefix of another (team, team/alice, team/alice2, team/alice/laptop), the namespace words (bugs, identities) as name or path element; refs/remotes/<name>/<namespace>/<id> is recognised by the configured names, not by position. A removal of an entity without local ref that returns an error (the cache API and the CLI cannot resolve such an entity) is recorded as refused and only its frame is judged. A case is non-trivial when the removal was carried out and everything could be observed; distinct = distinct (kind, API, history point, #remotes, #holding remotes, longest engineered shared prefix, cross-namespace twin, prefix mode, user identity set, bridge config, fetched-unmerged entity, pre-built cache, state of the victim, set of remote names)",
 		min, []string{
 			"ids cannot be chosen: the configuration (sizes, shared prefix lengths, remotes) is a function of the seed, the concrete ids are not",
 			"removed identities never authored anything (removing an author breaks its bugs by design, the statement leaves that to the caller)",
@@ -2179,6 +2366,7 @@ func runC14(tier, replay string) int {
 			"the statement does not say that removing an entity that does not exist locally must be accepted: a removal of an entity without local ref that returns an error is not judged (beyond: nothing else changed), an accepted one is judged in full",
 			"removal through the entity API is judged on repositories whose cache is (re)built afterwards; what a cache built *before* such a removal serves is recorded, not judged",
 			"for wipe only the stated end state is judged (no ref under the four namespaces, no git-bug.* key, no file under .git/git-bug); git objects are never expected to disappear",
+			"remote names: only names `git remote add` accepts; no configuration holds two remotes a, b with b starting with a+\"/bugs\" or a+\"/identities\" (git-bug's ref layout refs/remotes/<remote>/<namespace>/<id> cannot tell such a pair apart)",
 			"full-text assertions use planted marker tokens (zqNNx?k) that the English analyzer leaves alone",
 		})
 }
